@@ -1639,3 +1639,60 @@ def n9(facts, tier):
                              "the caller's wake callback is handed to AbiWaker::new as received" if ok else
                              f"{fid}: AbiWaker::new does not receive the caller's wake callback as it is (it is wrapped in a closure that does "
                              f"not call it on every path): wake-ups are filtered before they cross the ABI boundary")
+
+
+# ---------------------------------------------------------------------------------------------
+# N10: the marker bounds of an interface reach its run-time definition
+
+N10_EXPECT = {   # corpus trait -> (sync, send), from the declarations in corpus/abi_family.rs
+    "BoundsSyncSend": (1, 1), "BoundsSendSync": (1, 1), "BoundsSendOnly": (0, 1), "BoundsSyncOnly": (1, 0), "BoundsArgs": (0, 0),
+    "Callback": (0, 0),
+}
+N10_CLOSURE_ARGS = {"BoundsArgs": [(1, 1), (0, 1)]}   # marker bounds of the closure arguments of its methods, in declaration order
+
+
+def _n10_literal(f):
+    for x in walk(f["body"]):
+        if x.get("k") == "Adt" and (x.get("adt") or "").endswith("AbiTraitDefinition"):
+            fl = {y["f"]: peel(y["e"]).get("int") for y in x["fields"] if y["f"] in ("sync", "send")}
+            if "sync" in fl and "send" in fl:
+                return (fl["sync"], fl["send"]), x
+    return None, None
+
+
+@rule("N10", ["C16", "C10"], floor=7, doc="the Send / Sync supertraits of an exported interface, in whatever order they are written, and the marker bounds of "
+      "closure arguments, are recorded in the generated AbiTraitDefinition (sync, send): the connection-time check that refuses a non-Sync "
+      "closure for an implementation that shares it between threads reads exactly these flags")
+def n10(facts, tier):
+    defs = {}
+    for fid, f in facts.fns.items():
+        if f["crate"] == "sfcorpus" and fid.endswith("as savefile_abi::AbiExportable>::get_definition") and f.get("body"):
+            m = re.match(r"<\(dyn ([^ ]+)", fid)
+            if m:
+                defs[m.group(1)] = f
+    for name, want in sorted(N10_EXPECT.items()):
+        f = defs.get("sfcorpus::abi::" + name)
+        if f is None:
+            yield ob(["C16", "C10"], "N10", name, "violation", "", f"generated definition of corpus trait {name} not found")
+            continue
+        got, node = _n10_literal(f)
+        ok = got == want
+        yield ob(["C16", "C10"], "N10", name, "pass" if ok else "violation", where(f, node) if node else where(f),
+                 f"{name}: (sync, send) = {got} as declared" if ok else
+                 f"the generated definition of {name} records (sync, send) = {got}, the trait is declared with {want}: a marker bound is lost "
+                 f"(or invented) on the way into the run-time definition, so the connection-time bound check compares the wrong flags")
+    for name, wants in sorted(N10_CLOSURE_ARGS.items()):
+        f = defs.get("sfcorpus::abi::" + name)
+        if f is None:
+            continue
+        nested = [x.get("self_ty") for x in walk(f["body"]) if x.get("k") == "Call" and (callee(x) or "").endswith("AbiExportable::get_definition")]
+        nested = [re.sub(r"^\(?dyn |\s*\+.*$|\)$", "", n_ or "") for n_ in nested]
+        for i, want in enumerate(wants):
+            key = f"{name}:closure-arg#{i + 1}"
+            g = defs.get(nested[i]) if i < len(nested) else None
+            got, node = _n10_literal(g) if g is not None else (None, None)
+            ok = got == want
+            yield ob(["C16", "C10"], "N10", key, "pass" if ok else ("violation" if got is not None else "undecided"), where(g, node) if g is not None and node else "",
+                     f"closure argument {i + 1} of {name}: (sync, send) = {got} as declared" if ok else
+                     f"the helper interface generated for closure argument {i + 1} of {name} records (sync, send) = {got}, the argument is declared "
+                     f"with {want}: an implementation that requires a Sync closure can be handed one that is not")
